@@ -18,7 +18,7 @@ type Mode struct {
 }
 
 func seq(name string, cases, batch int64) Mode {
-	return Mode{Name: name, Build: "plain", Cases: cases, Batch: batch, Par: 16, WatchdogS: 60, HangIs: "violation"}
+	return Mode{Name: name, Build: "plain", Cases: cases, Batch: batch, Par: 16, WatchdogS: 120, HangIs: "violation"}
 }
 
 func conc(name, build string, cases, batch int64, par int, procs ...int) Mode {
@@ -135,7 +135,7 @@ func plan0(prop, tier string) []Mode {
 		return ms
 	case "C09":
 		ms := []Mode{
-			tagged(Mode{Name: "tierb", Build: "plain", Cases: pick(40000, 8000000), Batch: pick(2500, 50000), Par: 16, WatchdogS: 60, HangIs: "violation"}),
+			tagged(Mode{Name: "tierb", Build: "plain", Cases: pick(40000, 8000000), Batch: pick(2500, 50000), Par: 16, WatchdogS: 120, HangIs: "violation"}),
 			conc("free", "plain", pick(600, 30000), pick(60, 600), 6, 1, 2, 4, 16),
 			conc("free", "race", pick(500, 25000), pick(50, 500), 8, 2, 4, 16, 8),
 		}
